@@ -6,11 +6,11 @@ XH = "bounded symbolic execution of the real Python code with CrossHair (z3): in
 CHECKS = {
  "C08": dict(level="other", design="4/C08",
    text="Inductive step, decided by the solver: from every list of length n<=N (payloads symbolic, equal ones allowed) every one of the 11 operations on every node position leaves head/tail/all prev+next links/size equal to the identity-based reference sequence; plus a solver search for payload patterns that make node comparison recurse with the position (confirmed on a 3000-element list before reporting). Holds for all values inside N; histories of any length with size<=N follow by induction.",
-   note="Trusted: CrossHair 0.0.110 path exploration + z3 5.1 verdicts; harness oracle (identity sequence). Bounds: N=6 quick / 8 thorough; ints as payloads."),
+   note="Trusted: CrossHair 0.0.110 path exploration + z3 5.1 verdicts; harness oracle (identity sequence). Bounds: length<=6 (extend/pre_extend with <=5 items) quick / <=12 (<=6 items) thorough; ints as payloads."),
 }
 CHECKS["C06"] = dict(level="other", design="4/C06",
    text="Inductive step decided by the solver: from every LRUCache state with capacity<=C (all recency orders; keys, values, probe arguments unbounded symbolic ints) each of 14 mapping operations (+ ==/!= against dict/LRUCache) matches an ordered-list model and the full representation invariant (dict<->nodes<->links/size); views are consumed under an element budget so non-termination is a decided verdict. For all values inside the capacity bound; histories of any length follow by induction.",
-   note="Trusted: CrossHair+z3; AssocDict stub standing in for the internal dict in symbolic runs (replays use the real dict); Mapping mixins of CPython executed as they are. Bounds: capacity<=3 quick / <=5 thorough.")
+   note="Trusted: CrossHair+z3; AssocDict stub standing in for the internal dict in symbolic runs (replays use the real dict); Mapping mixins of CPython executed as they are. Bounds: capacity<=4 quick / <=7 thorough.")
 CHECKS["C07"] = dict(level="other", design="4/C07",
    text="Inductive step decided by the solver: from every LFUCache state with capacity<=C and use counts<=M (every tie order; keys/values symbolic ints) each mapping operation matches a content+count model in which ties are free: victim has minimal count, list non-decreasing in count, value = last stored, Item.meta == model count, dict/list/links/size consistent; views terminate under a budget.",
    note="Trusted: CrossHair+z3; AssocDict stub for the internal dict in symbolic runs. Bounds: capacity<=3,count<=3 quick / <=4,<=4 thorough.")
@@ -19,7 +19,7 @@ CHECKS["C16"] = dict(level="other", design="4/C16",
    note="Trusted: CrossHair+z3; floats modelled as finite reals (exact for comparisons; NaN/inf outside the claim); PairsMapping stub for the dict argument (pairwise different keys assumed). Bounds: N=3 quick / 4 thorough.")
 CHECKS["C09"] = dict(level="other", design="4/C09",
    text="Solver-decided construction + inductive step: initial collections of length<=L (int / real / mixed families, repeats, empty) give strictly ascending iteration with set()/dict() content (later pair wins; Mapping and pairs forms); from every strictly ascending state of size<=L each SortedSet/SortedMap operation with a symbolic number matches a sorted-list model and the storage invariant; foreign probes ('x', None, (1,)) report absent and leave the structure unchanged.",
-   note="Trusted: CrossHair+z3; floats as finite reals (NaN/inf outside the claim); PairsMapping stub for the Mapping initialiser. Bounds: L=4 quick / 5 thorough.")
+   note="Trusted: CrossHair+z3; floats as finite reals (NaN/inf outside the claim); PairsMapping stub for the Mapping initialiser. Bounds: L=5 (both tiers).")
 CHECKS["C10"] = dict(level="other", design="4/C10",
    text="Solver-decided total-function check: for every ordered pair of the four relations, every |A|,|B|<=S and every operator/predicate group, span ends are unbounded symbolic numbers; construction (pairs, generator, starts/ends, force_no_dup_check), membership, &,|,-,^ and the nine predicates equal an independent evaluation of their membership-based definitions on every path.",
    note="Trusted: CrossHair+z3; harness reference model (20 lines). Bounds: S=2 quick (ints); thorough adds S=3 for &,|,-,^,<= and a real-number family at S=2.")
@@ -34,7 +34,7 @@ CHECKS["C19"] = dict(level="other", design="4/C19",
    note="Trusted: CrossHair+z3. Bounds: list lengths <=4/5, |s1|<=3,|s2|<=4/5, n<=7/9, bs<=8/10, fp lemma B=8 quick / 12 thorough; roman complete.")
 CHECKS["C11"] = dict(level="other", design="4/C11",
    text="Solver-decided on a stub file system: the file content is a symbolic str (every character a solver variable inside its UTF-8 length class; shapes enumerate length and newline positions), so empty lines, missing final newline, multi-byte characters and carriage returns are all inside; len, f[i] for symbolic i (negative, out of range), slices, index lists, caller-supplied offset indexes (subset/permutation/repetition; list and index file), iteration == indexing, and interleavings of two iterators with random access on one object are compared with the split-by-newline reference for the buffered, memory-mapped, mutable(unmodified) and record variants.",
-   note="Trusted: CrossHair+z3; SymFS stub of open/mmap/readline/seek/tell (validated differentially against the real API on 264 contents every run; every counterexample replayed on real files). Bounds: content length <=2 (+7 shapes of 3) quick; <=3 full + length 4 over {newline,1-byte,3-byte} thorough.")
+   note="Trusted: CrossHair+z3; SymFS stub of open/mmap/readline/seek/tell (validated differentially against the real API on 264 contents every run; every counterexample replayed on real files). Bounds: content length <=2 (+7 shapes of 3) quick; <=3 full + length 4 over {newline,1-byte,3-byte} + two 4-line shapes with 4-entry custom indexes thorough.")
 CHECKS["C12"] = dict(level="other", design="4/C12",
    text="Inductive step decided by the solver on the stub file system: every reachable mix of file-backed lines (offsets) and in-memory strings up to the bound is built through the API, then one of 17 operations (item assignment/deletion, slice deletion, insert, append, extend, pop, remove, reverse, +=, reads, save with three line endings to a path or an open handle) with symbolic strings/indices is compared with a Python list, the dirty flag rules, the exact saved text, re-reading of the saved file with both reader variants and the untouched source; text/mmap x plain/record variants.",
    note="Trusted: CrossHair+z3 (with its symbolic-str equality replaced by an element-wise one, see DESIGN); SymFS stub (validated differentially every run; counterexamples replayed on real files); identity record class for the record variants. Bounds: <=2 original lines, state length <=3 quick; <=3 lines, length <=4 thorough; inserted strings of length 1, assigned strings <=2.")
@@ -49,14 +49,14 @@ CHECKS["C02"] = dict(level="model_checking", design="4/C02", engine="bmc", techn
    text="Decided by z3 on the same regenerated transition system: no reachable state in which the fully-consuming scenario has not finished and no thread can move (blocking calls are disabled transitions), and every execution is shorter than K steps (unwinding query unsat), for all interleavings - which includes arbitrarily late scheduling of the feeding thread - and all n<=N, with and without result-queue flow control.",
    note="As C01. A deadlock schedule found by the solver is replayed on the real classes; the replay controller confirms it when every live thread waits at a disabled operation.")
 CHECKS["C05"] = dict(level="model_checking", design="4/C05", engine="bmc", technique=BMC,
-   text="Decided by z3 over all interleavings of the FunctorMap parent loop with its worker processes and all n<=N: output == map(f, data) in order, queues free of payload afterwards, no deadlock, bounded execution; a second call on the same FunctorMap is independent.",
-   note="Trusted: z3, VM, primitive contracts (multiprocessing.Queue as atomic bounded FIFO). Bounds: quick n<=2, workers<=2, chunk<=2, one 2-call configuration; thorough n<=3. mul_p_map itself is not encoded yet (same protocol).")
+   text="Decided by z3 over all interleavings of the FunctorMap parent loop (and of mul_p_map) with the worker processes and all n<=N: output == map(f, data) in order (mul_p_map: the returned list, its sorted() encoded as a rank selection), queues free of payload afterwards, no deadlock, bounded execution; a second call on the same FunctorMap is independent.",
+   note="Trusted: z3, VM, primitive contracts (multiprocessing.Queue as atomic bounded FIFO). Bounds: quick FunctorMap n<=2, workers<=2, chunk<=2, one 2-call configuration, mul_p_map workers<=2, n<=2, class-level work-queue bound 1/2; thorough n<=3, mul_p_map workers<=3.")
 CHECKS["C03"] = dict(level="model_checking", design="4/C03, 6", engine="bmc", technique=BMC,
-   text="PARTIAL claim. Plain FunctorPool: induction over calls decided by z3 with a symbolic schedule - from every state satisfying the inter-call invariant (symbolic stale _data_cnt, symbolic number of stale payload-free tokens in the results queue, _sending_work False, work queue empty, idle workers) ONE imap / imap_unordered call yields exactly its own results, cannot deadlock, is bounded, and re-establishes the invariant; hence call sequences of any length. NOT decided: the FactoryFunctorPool half (quota retirement, ReplaceWorkerThread, stale stop tokens) - worker replacement is not encoded.",
-   note="Trusted: as C01 plus the stated inter-call invariant (a worker that still holds the results lock after its last put is not represented). Bounds: 1 worker, n<=1, <=1 stale token (quick); n<=2, 2 workers, results bound 1 (thorough).")
+   text="Plain FunctorPool: induction over calls decided by z3 with a symbolic schedule - from every state satisfying the inter-call invariant (symbolic stale _data_cnt, symbolic number of stale payload-free tokens in the results queue, _sending_work False, work queue empty, idle workers) ONE imap / imap_unordered call yields exactly its own results, cannot deadlock, is bounded, and re-establishes the invariant; hence call sequences of any length. FactoryFunctorPool with a chunk quota (thorough tier): worker retirement and replacement by ReplaceWorkerThread are encoded (5 threads); counterexamples (e.g. the stale stop token repaired in 4ecc193) are found and replayed on the real classes, but the refutation does not finish within the budget, so that half is BUG-HUNTING ONLY and reported INCONCLUSIVE on a correct tree.",
+   note="Trusted: as C01 plus the stated inter-call invariant (a worker that still holds the results lock after its last put is not represented; pending retirements in the replace queue are not part of the havoc state). Bounds: 1 worker, n<=1, <=1 stale token (quick); thorough adds 2 workers, results bound 1, n<=2 with <=2 pre-emptions, and the factory configuration (1 worker + 1 spare, quota 1, K=84).")
 CHECKS["C04"] = dict(level="model_checking", design="4/C04, 6", engine="bmc", technique=BMC,
-   text="PARTIAL claim. Plain FunctorPool with harness workers carrying ghost monitors and solver-chosen faults (begin() raises / functor raises): decided by z3 over all interleavings, n<=N and fault choices that begin() runs once before any item, no item after end(), until_all_ready() returns only after every begin() completed, a worker with quota k processes at most k chunks, every terminated worker has begin_calls == end_calls == 1 (also in raising runs), and no worker is running after the pool context. NOT decided: lifecycle of REPLACED workers of FactoryFunctorPool (not encoded).",
-   note="Trusted: as C01; monitors are ghost state (not schedulable steps). Bounds: 1 worker, n<=1, quota none/1 (quick); 2 workers, n<=2 (thorough).")
+   text="PARTIAL claim. Plain FunctorPool with harness workers carrying ghost monitors and solver-chosen faults (begin() raises / functor raises): decided by z3 over all interleavings, n<=N and fault choices that begin() runs once before any item, no item after end(), until_all_ready() returns only after every begin() completed, a worker with quota k processes at most k chunks, every terminated worker has begin_calls == end_calls == 1 (final-state invariant, also evaluated on the real run in replays), and no worker is running after the pool context. NOT decided: lifecycle of REPLACED workers of FactoryFunctorPool.",
+   note="Trusted: as C01; monitors are ghost state (not schedulable steps). Bounds: 1 worker, n<=1, quota none/1 (quick); 2 workers, n<=2 with a context bound, bounded results queue (thorough).")
 NOT_YET = {
  "C13": "escaping behaviour lives in the C extensions _json/_csv: CrossHair realises every value at that boundary (sampling, not this technique) and csv has no Python source to encode; the repository-owned record-file layering is exercised inside C11/C12 with an identity record class (DESIGN.md section 6)",
  "C14": "needs per-process attribute copies at fork, shared open-file descriptions, multiprocessing.Value/RLock/manager-list and file primitives in the Engine C bytecode VM; these primitives are not implemented, so the code cannot be encoded within reach (DESIGN.md section 6)",
